@@ -94,6 +94,9 @@ def binop(I, op, a, b):
     return scalar_binop(I, ty, a, b)
 
 
+INT_QUOTIENTS = []
+
+
 def scalar_binop(I, ty, a, b, elementwise=False):
     if ty in (ast.BitAnd, ast.BitOr, ast.BitXor):
         x, y = to_z3(a), to_z3(b)
@@ -105,8 +108,16 @@ def scalar_binop(I, ty, a, b, elementwise=False):
         x, y = to_z3(a), to_z3(b)
         if (z3.is_int(y) or _is_toreal(y)) and not elementwise:
             I.oblige(f"div_by_zero@{I.cur_line}", y != 0, "safety")
+        ints = (z3.is_int(x) or _is_toreal(x)) and \
+            (z3.is_int(y) or _is_toreal(y))
         x, y = to_real(x), to_real(y)
-        return x / y
+        r = x / y
+        if ints:
+            # the quotient of two integers is an ordinary number, never the
+            # NaN marker (remembered: used where such quotients are stored)
+            INT_QUOTIENTS.append(r)
+            del INT_QUOTIENTS[:-200]
+        return r
     x, y = unify(a, b)
     if z3.is_bool(x):
         x, y = to_int(x), to_int(y)
@@ -3486,7 +3497,12 @@ def dict_comprehension(I, node, env):
             probe = get(z3.Int(I.namer.fresh("q_dc")))
             elem = "Real" if (is_z3(probe) and z3.is_real(probe)) or \
                 isinstance(probe, float) else src.elem
-            return Cell("idict", SymSeq(src.length, get, elem))
+            out = SymSeq(src.length, get, elem)
+            if is_z3(probe) and any(probe.eq(q) for q in INT_QUOTIENTS):
+                # values that are quotients of integers are not NaN
+                I.assume(forall_idx(I, src.length,
+                                    lambda k: to_real(out.get(k)) != NANV))
+            return Cell("idict", out)
         return _dict_comprehension0_with(I, node, env, it)
     return _dict_comprehension0(I, node, env)
 
